@@ -15,6 +15,7 @@
    `TypedRowStream`, is outside this slice). *)
 From SV Require Import Base.Prelude Base.Bytes Model.Vint Model.Cql Model.Accept Proofs.Cql_proofs Proofs.Accept_proofs.
 From SV Require Model.Request.
+From Coq Require Import Permutation.
 Open Scope N_scope.
 
 (* ---- the acceptance matrices ----------------------------------------------------------- *)
@@ -316,9 +317,22 @@ Proof. exact typed_row_map_names. Qed.
 
 (* from_closure: the number of values written through a RowWriter (cells and appended rows) is
    either reported exactly or refused - it never wraps *)
-Theorem C17_closure_count : forall parts n, closure_count parts = Ok n ->
-  n = fold_left N.add parts 0 /\ n <= u16_max.
-Proof. exact closure_count_ok. Qed.
+Theorem C17_closure_count : forall parts,
+  (forall e, closure_count parts = Err e <-> e = RE_TooManyValues /\ u16_max < fold_left N.add parts 0) /\
+  (forall n, closure_count parts = Ok n <-> n = fold_left N.add parts 0 /\ n <= u16_max) /\
+  (forall parts', Permutation parts parts' -> closure_count parts = closure_count parts').
+Proof. exact closure_count_spec. Qed.
+(* ... and it is the check the row models end in: the count a row (by position or by name) leaves
+   in a SerializedValues is the [closure_count] of its one part, and a row refused for its count
+   is refused by [closure_count] *)
+Theorem C17_closure_count_rows :
+  (forall cols vals s, from_row cols vals = Ok s ->
+     closure_count [N.of_nat (List.length vals)] = Ok (sv_count s)) /\
+  (forall cols vals, from_row cols vals = Err RE_TooManyValues ->
+     closure_count [N.of_nat (List.length vals)] = Err RE_TooManyValues) /\
+  (forall (cols : list (bytes * ctype)) r s, from_typed_row cols r = Ok s ->
+     closure_count [N.of_nat (List.length cols)] = Ok (sv_count s)).
+Proof. exact closure_count_rows. Qed.
 
 (* ---- non-vacuity ----------------------------------------------------------------------- *)
 
@@ -326,6 +340,43 @@ Definition tint := TNative NInt.
 Definition ttext := TNative NText.
 
 (* the matrix has true and false cells at depth 2; the two relaxations are visible *)
+(* ---- deepening round 3 ------------------------------------------------------------------ *)
+
+(* Rows bound by name, with the keys of a Rust map (distinct): the result - bytes, count, and the
+   error with the name it reports - does not depend on the order in which the map iterates
+   (HashMap!), ... *)
+Theorem C17_named_row_order : forall (cols : list (bytes * ctype)) kvs kvs',
+  NoDup (map fst kvs) -> Permutation kvs kvs' ->
+  from_typed_row cols (Request.RMap kvs) = from_typed_row cols (Request.RMap kvs').
+Proof. exact typed_row_order. Qed.
+(* ... and the cell of a column is the wire form of THE entry stored under the column's name
+   (membership - no search order): a mis-binding, type-correct or not, is impossible *)
+Theorem C17_named_row_unique : forall (cols : list (bytes * ctype)) kvs s, NoDup (map fst kvs) ->
+  from_typed_row cols (Request.RMap kvs) = Ok s ->
+  exists chunks : list bytes, sv_bytes s = concat chunks /\ List.length chunks = List.length cols /\
+    forall i nm t, nth_error cols i = Some (nm, t) ->
+      exists kv o, In (nm, kv) kvs /\ (forall kv', In (nm, kv') kvs -> kv' = kv) /\
+                   ser_out (fst kv) true t (snd kv) = (o, None) /\ nth_error chunks i = Some o.
+Proof. exact typed_row_unique. Qed.
+(* exactly when it is possible: without distinct keys (which no Rust map can hold) the order counts *)
+Theorem C17_named_row_order_refuted :
+  ~ (forall (cols : list (bytes * ctype)) kvs kvs', Permutation kvs kvs' ->
+       from_typed_row cols (Request.RMap kvs) = from_typed_row cols (Request.RMap kvs')).
+Proof.
+  intros H.
+  specialize (H [([97], tint)] [([97], (KBase BI32, VLeaf (CInt 1))); ([97], (KBase BI32, VLeaf (CInt 2)))]
+                [([97], (KBase BI32, VLeaf (CInt 2))); ([97], (KBase BI32, VLeaf (CInt 1)))] (perm_swap _ _ _)).
+  vm_compute in H. discriminate H.
+Qed.
+
+(* [dyn_fits] (the boolean the reject / accept theorems and the driver use) is the typing
+   relation [has_cql_type] (Proofs/Accept_proofs.v section 13: eight rules, no recursion over
+   the value's entries, the UDT clause said with "the last entry of a name" and "the first field
+   of a name"); a CqlValue in the typed path is judged by the same relation *)
+Theorem C17_dynamic_typing : forall t v,
+  (dyn_fits t v = true <-> has_cql_type t v) /\ val_fits KCqlValue t (VLeaf v) = dyn_fits t v.
+Proof. intros t v. split; [exact (dyn_fits_typing t v)|reflexivity]. Qed.
+
 Example C17_ex_matrix :
   ser_accepts (KVec (KOption (KBase BString))) (TList ttext) = true /\
   ser_accepts (KVec (KOption (KBase BString))) (TList tint) = false /\
@@ -504,6 +555,38 @@ Proof.
     try (intros [H|[H|[[H1 H2]|[[H1 H2]|H]]]]; (discriminate || (vm_compute in H; discriminate))).
 Qed.
 
+(* the typing relation, frozen: its eight rules as statements, and values it does / does not hold for *)
+Example C17_ex_typing :
+  (forall t, supports_empty t = true -> has_cql_type t CEmpty) /\
+  (forall n m v, payload_kind v = Some m -> (n = m \/ (In n string_types /\ In m string_types)) -> has_cql_type (TNative n) v) /\
+  (forall e v l, vec_elems v = Some l -> (forall x, In x l -> has_cql_type e x) -> has_cql_type (TList e) v /\ has_cql_type (TSet e) v) /\
+  (forall e d v l, vec_elems v = Some l -> N.of_nat (List.length l) = d -> (type_size e <> None -> ~ In CEmpty l) ->
+     (forall x, In x l -> has_cql_type e x) -> has_cql_type (TVector e d) v) /\
+  (forall k e l, (forall a b, In (a, b) l -> has_cql_type k a) -> (forall a b, In (a, b) l -> has_cql_type e b) ->
+     has_cql_type (TMap k e) (CMap l)) /\
+  (forall ts l, (List.length l <= List.length ts)%nat ->
+     (forall i x et, nth_error l i = Some (Some x) -> nth_error ts i = Some et -> has_cql_type et x) ->
+     has_cql_type (TTuple ts) (CTuple l)) /\
+  (forall ks nm fts fields, (forall f, In f (map fst fields) -> In f (map fst fts)) ->
+     (forall fname ft x, lookup_first fname fts = Some ft -> udt_field_value fname fields = Some x -> has_cql_type ft x) ->
+     has_cql_type (TUdt ks nm fts) (CUdt ks nm fields)) /\
+  has_cql_type tint (CInt 7) /\ has_cql_type ttext (CAscii [97]) /\ has_cql_type tint CEmpty /\
+  has_cql_type (TVector ttext 2) (CVector [CText [97]; CEmpty]) /\
+  has_cql_type (TUdt [107] [117] [([97], tint)]) (CUdt [107] [117] [([97], Some (CText [120])); ([97], Some (CInt 1))]) /\
+  ~ has_cql_type ttext (CInt 7) /\ ~ has_cql_type (TList tint) CEmpty /\
+  ~ has_cql_type (TVector tint 2) (CVector [CInt 1; CEmpty]) /\ ~ has_cql_type (TVector tint 2) (CVector [CInt 1]) /\
+  ~ has_cql_type (TList tint) (CList [CInt 1; CText [97]]) /\
+  ~ has_cql_type (TUdt [107] [117] [([97], tint)]) (CUdt [107] [117] [([97], Some (CInt 1)); ([97], Some (CText [120]))]) /\
+  ~ has_cql_type (TUdt [107] [117] [([97], tint)]) (CUdt [107] [117] [([98], None)]) /\
+  ~ has_cql_type (TTuple [tint]) (CTuple [Some (CInt 1); None]).
+Proof.
+  repeat match goal with |- _ /\ _ => split end;
+    try (intros; econstructor; eauto; fail);
+    try (intros; split; econstructor; eauto; fail);
+    try (apply dyn_fits_typing; vm_compute; reflexivity);
+    try (intros H; apply dyn_fits_typing in H; vm_compute in H; discriminate H).
+Qed.
+
 Print Assumptions C17_code_matrix.
 Print Assumptions C17_matrix_ser_doc_refuted.
 Print Assumptions C17_matrix_ser.
@@ -542,3 +625,8 @@ Print Assumptions C17_closure_count.
 Print Assumptions C17_named_row_count.
 Print Assumptions C17_named_row_refuses.
 Print Assumptions C17_named_row_names.
+Print Assumptions C17_closure_count_rows.
+Print Assumptions C17_named_row_order.
+Print Assumptions C17_named_row_unique.
+Print Assumptions C17_named_row_order_refuted.
+Print Assumptions C17_dynamic_typing.
